@@ -491,7 +491,7 @@ func (l *Loader) SetServerConfig(serverMAC net.HardwareAddr, serverIP net.IP, if
 	if len(serverMAC) >= 6 {
 		copy(config.ServerMAC[:], serverMAC[:6])
 	}
-	config.ServerIP = IPToUint32(serverIP)
+	config.ServerIP = IPToMapUint32(serverIP)
 	config.InterfaceIndex = uint32(ifIndex)
 
 	var key uint32 = 0
@@ -669,6 +669,26 @@ func IPToUint32(ip net.IP) uint32 {
 		return 0
 	}
 	return binary.BigEndian.Uint32(ip)
+}
+
+// IPToMapUint32 converts a net.IP to the uint32 that has to be stored in an
+// eBPF map field holding an IPv4 address: the kernel programs copy such
+// fields to and from packet headers unchanged, so the field's in-memory
+// bytes must be the address in network byte order whatever the host's
+// endianness (IPToUint32 yields the address as a host-order number instead).
+func IPToMapUint32(ip net.IP) uint32 {
+	ip = ip.To4()
+	if ip == nil {
+		return 0
+	}
+	return binary.NativeEndian.Uint32(ip)
+}
+
+// MapUint32ToIP is the inverse of IPToMapUint32.
+func MapUint32ToIP(n uint32) net.IP {
+	ip := make(net.IP, 4)
+	binary.NativeEndian.PutUint32(ip, n)
+	return ip
 }
 
 // Uint32ToIP converts a uint32 (network byte order) to net.IP
